@@ -35,11 +35,12 @@ func c08Lists(level int) []enumList {
 		{"i2", A{1, 2}, "integer"}, {"i3", A{0, -1, 2}, "integer"},
 		{"n2", A{1.5, 2}, "number"},
 		{"b1", A{true}, "boolean"}, {"b2", A{true, false}, "boolean"},
+		{"i-zero", A{0, 1}, "integer"}, {"s-empty", A{"", "a"}, "string"}, {"b-false", A{false}, "boolean"},
 		{"null", A{nil}, ""},
 		{"mixed", A{"a", 1, nil, true}, ""}, {"mixed-num", A{1, 1.5}, "number"}, {"s-null", A{"a", nil}, ""},
 	}
 	if level >= 1 {
-		ls = append(ls, enumList{"s3", A{"a", "b", "c"}, "string"}, enumList{"s-empty", A{"", "a"}, "string"}, enumList{"s-case", A{"a", "A"}, "string"},
+		ls = append(ls, enumList{"s3", A{"a", "b", "c"}, "string"}, enumList{"s-case", A{"a", "A"}, "string"},
 			enumList{"i1", A{7}, "integer"}, enumList{"n1", A{0.5}, "number"}, enumList{"mixed2", A{"1", 1}, ""})
 	}
 	return ls
